@@ -455,6 +455,19 @@ mut("C20", "r6-energy-all-rows-of-x", E + "Simulations/_simu.py", "        retur
 mut("C20", "r6-reaction-mass-missing", E + "Simulations/_simu.py", "            reaction[dofs] += M[dofs] @ self._Get_a_n(problemType)\n", "            reaction[dofs] += M[dofs] @ self._Get_v_n(problemType)\n", "Calc_Reaction")
 mut("C20", "r6-owned-nodes-ghost-slot", E + "FEM/_mesh.py", "            return list_groupElem[0]._Get_partitioned_data()[3]\n", "            return list_groupElem[0]._Get_partitioned_data()[4]\n", "_Get_mpi_owned_nodes")
 
+mut("C16", "r6-energy-default-mass-scheme", E + "Simulations/_elastic.py", "        smoothedStress=False,\n        matrixType=MatrixType.rigi,\n    ):", "        smoothedStress=False,\n        matrixType=MatrixType.mass,\n    ):", "_Calc_Psi_Elas")
+mut("C16", "r6-energy-thickness-3d-test", E + "Simulations/_elastic.py", "        thickness = self.material.thickness if self.dim == 2 else 1\n\n        # strain and elastic energy density", "        thickness = self.material.thickness if self.dim == 3 else 1\n\n        # strain and elastic energy density", "_Calc_Psi_Elas")
+mut("C16", "r6-energy-psi-factor", E + "Models/Elastic/_laws.py", "        return 1 / 2 * (Sigma_e_pg @ Epsilon_e_pg)\n", "        return Sigma_e_pg @ Epsilon_e_pg\n", "_Calc_Psi_Elas")
+same("C16", "r6-energy-rename-thickness", E + "Simulations/_elastic.py", "        thickness = self.material.thickness if self.dim == 2 else 1\n\n        # strain and elastic energy density", "        mat = self.material\n        thickness = mat.thickness if self.dim == 2 else 1.0\n\n        # strain and elastic energy density")
+same("C16", "r6-stiffness-local-law", E + "Simulations/_elastic.py", "            K_e = Operators.Bilinear.LinearizedElasticity(groupElem, self.material.C)\n", "            law = self.material\n            K_e = Operators.Bilinear.LinearizedElasticity(groupElem, law.C)\n")
+
+same("C17", "r6-projM-negated-difference", E + "Models/_phasefield.py", "            projM = np.eye(3) - projP\n", "            projM = -(projP - np.eye(3))\n")
+same("C17", "r6-M2-sum-form", E + "Models/_phasefield.py", "            M2 = I_e_pg - M1\n\n            tic.Tac(\"Split\", \"Eigenprojectors\", False)", "            M2 = -M1 + I_e_pg\n\n            tic.Tac(\"Split\", \"Eigenprojectors\", False)")
+
+same("C17", "r6-sqrt-clamp-mask-store", E + "Models/_phasefield.py", "            delta = np.maximum(delta, 0.0)\n", "            delta[delta < 0.0] = 0.0\n")
+same("C17", "r6-sqrt-clamp-where", E + "Models/_phasefield.py", "            delta = np.maximum(delta, 0.0)\n", "            delta = np.where(delta > 0.0, delta, 0.0)\n")
+same("C17", "r6-arccos-minmax", E + "Models/_phasefield.py", "            np.clip(arg, -1.0, 1.0, out=arg)\n", "            arg = np.minimum(1.0, np.maximum(-1.0, arg))\n")
+
 
 def apply_edit(root, e):
     if e.get("patch"):
